@@ -36,7 +36,19 @@ BASE_CFG = {"lazy": True, "cache": True, "debug": False, "start_seed": None,
 
 def make_case(seed: int, tier: str, prop: str, opts=None) -> Dict[str, Any]:
     opts = opts or {}
-    sc = gen.gen_core(seed, tier, force=opts.get("force"))
+    if h64(seed, "family") % 10 == 0 and not opts.get("force"):
+        # plant + async_requests agents (legal requests only): set_data delivery must not depend
+        # on schedule, transport or configuration either
+        sc = gen.gen_async(seed, tier)
+        sc.pop("illegal_async", None)
+        for s_ in sc["sims"]:
+            if s_["beh"].get("async_calls"):
+                s_["beh"]["async_calls"] = [c for c in s_["beh"]["async_calls"] if not c.get("illegal")]
+        for c in sc["conns"]:
+            if c.get("async") is False:
+                c["async"] = True
+    else:
+        sc = gen.gen_core(seed, tier, force=opts.get("force"))
     rng = random.Random(h64(seed, "c04"))
     mli = sc["config"].get("mli", 100)
     sc["config"] = dict(BASE_CFG, mli=mli)
